@@ -173,7 +173,7 @@ def evaluate(ctx):
     res = run_model(ctx, lines) if lines else {}
     n = {"programs": 0, "fresh_eq": 0, "pipe_eq": 0, "pipe_skipped": 0}
     fn = {"EQ": 0, "DIFF": 0, "UNSUPPORTED": 0, "PRUNED": 0}
-    frag = {"functions": 0, "inside": 0, "inside_and_EQ": 0, "inside_and_typed_theorem_applies(stdFn)": 0}
+    frag = {"functions": 0, "inside": 0, "inside_and_EQ": 0, "inside_and_typed_theorem_applies(stdFn and typedTablesOK)": 0}
     reasons = {}
     typed = {"AGREE-OK": 0, "AGREE-BAD": 0, "SKIP": 0, "DISAGREE": 0}
     diffs, samples, distinct = [], [], set()
@@ -220,7 +220,7 @@ def evaluate(ctx):
             elif why in ("in", "in(typed)"):
                 frag["inside"] += 1
                 frag["inside_and_EQ"] += verdicts.get(name) in ("EQ", "PRUNED")
-                frag["inside_and_typed_theorem_applies(stdFn)"] += why == "in(typed)"
+                frag["inside_and_typed_theorem_applies(stdFn and typedTablesOK)"] += why == "in(typed)"
             else:
                 reasons[why] = reasons.get(why, 0) + 1
         if len(r) >= 5:
